@@ -219,7 +219,10 @@ def run(ctx):
     fi, paths = own_method_paths(ctx, "BytesInteger", "_emitprimitivetype")
     want = ("fmt", N.const("%s%s%s"), ("tuple", (N.mk_ite(N.selfattr("signed"), N.const("s"), N.const("u")), N.selfattr("length"), N.mk_ite(N.selfattr("swapped"), N.const("le"), N.const("be")))))
     rets = [p for p in paths if p.returns and N.mk_not(("param", "bitwise")) in p.guards()]
-    ctx.ob("C19.R2", fi, len(rets) == 1 and rets[0].retval == want, "BytesInteger exports {s|u}{length}{le|be} with s iff signed and le iff swapped (what _parse does)", key="BytesInteger type")
+    def matches(p, want_):
+        sp = specialise(want_, p)
+        return p.retval == want_ or (p.retval == sp and not any(x[0] == "ite" for x in N.walk(sp)))
+    ctx.ob("C19.R2", fi, len(rets) in (1, 4) and all(matches(p, want) for p in rets), "BytesInteger exports {s|u}{length}{le|be} with s iff signed and le iff swapped (what _parse does)", key="BytesInteger type")
     bits = [p for p in paths if p.returns and ("param", "bitwise") in p.guards()]
     ctx.ob("C19.R2", fi, len(bits) == 1 and bits[0].retval == ("fmt", N.const("b%s"), ("tuple", (N.mk_mul(N.const(8), N.selfattr("length")),))), "in a bitwise context BytesInteger exports b{8*length}", key="BytesInteger bit type")
     fi, paths = own_method_paths(ctx, "FormatField", "_emitprimitivetype")
@@ -230,10 +233,10 @@ def run(ctx):
     want_f = ("fmt", N.const("f%s%s"), ("tuple", (N.selfattr("length"), N.mk_ite(little, N.const("le"), N.const("be")))))
     ints = [p for p in paths if p.returns and N.mk_not(("param", "bitwise")) in p.guards() and any(c[0] == "cmp" and c[1] == "in" and c[3] == N.const("bhlqBHLQ") for c in p.guards())]
     flts = [p for p in paths if p.returns and any(c[0] == "cmp" and c[1] == "in" and c[3] == N.const("fd") for c in p.guards())]
-    ctx.ob("C19.R2", fi, len(ints) == 1 and ints[0].retval == want_i, "FormatField integers export {s|u}{length}{le|be}: signed iff lower-case code, little-endian iff '<' or native on a little-endian host (struct semantics)", key="FormatField int type")
+    ctx.ob("C19.R2", fi, len(ints) >= 1 and all(matches(p, want_i) for p in ints), "FormatField integers export {s|u}{length}{le|be}: signed iff lower-case code, little-endian iff '<' or native on a little-endian host (struct semantics)", key="FormatField int type")
     fbits = [p for p in paths if p.returns and ("param", "bitwise") in p.guards()]
     ctx.ob("C19.R2", fi, len(fbits) >= 1 and all(p.retval == ("fmt", N.const("b%s"), ("tuple", (N.mk_mul(N.const(8), N.selfattr("length")),))) for p in fbits), "in a bitwise context FormatField integers export b{8*length}", key="FormatField bit type")
-    ctx.ob("C19.R2", fi, len(flts) == 1 and flts[0].retval == want_f, "FormatField floats export f{length}{le|be} with the same byte-order rule", key="FormatField float type")
+    ctx.ob("C19.R2", fi, len(flts) >= 1 and all(matches(p, want_f) for p in flts), "FormatField floats export f{length}{le|be} with the same byte-order rule", key="FormatField float type")
     fi, paths = own_method_paths(ctx, "BitsInteger", "_emitprimitivetype")
     ok = all(p.retval == ("fmt", N.const("b%s"), ("tuple", (N.selfattr("length"),))) for p in paths if p.returns) and any(p.returns for p in paths)
     ctx.ob("C19.R2", fi, ok, "BitsInteger exports b{length}", key="BitsInteger type")
